@@ -143,12 +143,39 @@ func vhSampleRegisters() [][]byte {
 			regs = append(regs, data)
 		}
 	}
+	// the same slab kinds in the version-0 framing (flat containers: root and
+	// non-root data slabs with sibling links, index slabs, collision groups)
+	an, mn := 3, 1
+	if vhParam("legacy", 1) > 1 {
+		an, mn = 9, 3
+	}
+	for _, legacy := range []*BasicSlabStorage{vhLegacyContainers(an, false, true), vhLegacyContainers(mn, true, true)} {
+		lids := make([]SlabID, 0, len(legacy.Slabs))
+		for id := range legacy.Slabs {
+			lids = append(lids, id)
+		}
+		for i := 1; i < len(lids); i++ {
+			for j := i; j > 0 && lids[j-1].Compare(lids[j]) > 0; j-- {
+				lids[j-1], lids[j] = lids[j], lids[j-1]
+			}
+		}
+		for _, id := range lids {
+			v1, err := EncodeSlab(legacy.Slabs[id], legacy.cborEncMode)
+			if err != nil {
+				continue
+			}
+			if v0 := vhEncodeV0(legacy.Slabs[id], v1[1]); v0 != nil {
+				regs = append(regs, v0)
+			}
+		}
+	}
 	return regs
 }
 
 //vh:prop C19
 //vh:init cbor
 //vh:param trunc 0 2
+//vh:param legacy 1 2
 func VH_C19_MutatedRegisters() {
 	regs := vhSampleRegisters()
 	r := vhChoose("register", len(regs))
